@@ -5,3 +5,9 @@ package ecs
 // Mask vocabulary for the tiny (64 bit) build.
 
 //@ spec func mhas(m bitMask, i uint8) bool := m64has(m, i)
+
+//@ spec func msub(a bitMask, b bitMask) bool := a.bits&b.bits == a.bits
+//@ spec func mempty(a bitMask) bool := a.bits == 0
+
+//@ lemma msubView(a bitMask, b bitMask) serves C08 C03 := msub(a, b) == (forall i uint8 :: mhas(a, i) ==> mhas(b, i))
+//@ lemma memptyView(a bitMask) serves C08 C03 := mempty(a) == (forall i uint8 :: !mhas(a, i))
